@@ -421,7 +421,7 @@ impl<'a> Printer<'a> {
                     self.out.push('[');
                     self.slot(" ");
                     self.out.push_str(self.kw(KW_KEYS, "keys", "KEYS"));
-                    self.out.push(' ');
+                    self.slot(" ");
                     match (op, not) {
                         (BinOp::Eq, false) => self.out.push_str("=="),
                         (BinOp::Eq, true) => self.out.push_str("!="),
